@@ -212,6 +212,86 @@ Definition request_of_orig {T} := @request_with escape_gk_orig T.
 Definition calls_of {T} := @calls_with escape_gk T.
 Definition calls_of_orig {T} := @calls_with escape_gk_orig T.
 
+(* ---------- a PROCESS: successive calls of the three functions ----------
+   The only mutable object _use_gateway hands out is the header list: a handler may change the list it is given
+   (basic_auth_handler does `headers.append(('Authorization', ...))`, a custom handler may clear it, replace an entry,
+   ...).  The list display `[('Content-Type', CONTENT_TYPE_LATEST)]` is evaluated inside _use_gateway, at every call:
+   each call allocates a NEW list object.  The heap below holds the header-list objects of the process by address
+   (= index); what a handler does to the object it was given stays in that object.  The body is `bytes`, the url and the
+   method are `str`: immutable, nothing a handler does to them can outlive the call.                                   *)
+Inductive hact :=
+  | HKeep                           (* reads only *)
+  | HAppend (kv : str * str)        (* headers.append(kv) *)
+  | HClear                          (* headers.clear() / del headers[:] *)
+  | HSet0 (kv : str * str)          (* headers[0] = kv   (IndexError on an empty list: nothing changes) *)
+  | HInsert0 (kv : str * str)       (* headers.insert(0, kv) *)
+  | HPop.                           (* headers.pop()     (IndexError on an empty list: nothing changes) *)
+Definition hact_apply (a : hact) (l : list (str * str)) : list (str * str) :=
+  match a with
+  | HKeep => l
+  | HAppend kv => l ++ [kv]
+  | HClear => []
+  | HSet0 kv => match l with [] => [] | _ :: r => kv :: r end
+  | HInsert0 kv => kv :: l
+  | HPop => removelast l
+  end.
+Definition hacts_apply (acts : list hact) (l : list (str * str)) : list (str * str) :=
+  fold_left (fun l a => hact_apply a l) acts l.
+
+Definition heap := list (list (str * str)).
+Definition heap_alloc (h : heap) (l : list (str * str)) : heap * nat := (h ++ [l], length h).
+Definition heap_read (h : heap) (a : nat) : list (str * str) := nth a h [].
+Fixpoint heap_write (h : heap) (a : nat) (l : list (str * str)) : heap :=
+  match h, a with
+  | [], _ => []
+  | _ :: r, O => l :: r
+  | x :: r, S a' => x :: heap_write r a' l
+  end.
+
+(* one call: the arguments, and what the caller's handler does to the header list it receives *)
+Record call (T : Type) := mkCall {
+  c_api : api; c_hs : bool; c_gw : str; c_job : str; c_gk : list (str * str); c_expo : list N; c_timeout : T;
+  c_acts : list hact }.
+Arguments mkCall {T}. Arguments c_api {T}. Arguments c_hs {T}. Arguments c_gw {T}. Arguments c_job {T}.
+Arguments c_gk {T}. Arguments c_expo {T}. Arguments c_timeout {T}. Arguments c_acts {T}.
+
+Section Process.
+  Variable esc : str -> str -> res (str * str).
+  (* the call made alone, in a process that has issued nothing before *)
+  Definition call_alone_with {T} (c : call T) : res (list (request T)) :=
+    calls_with esc (c_api c) (c_hs c) (c_gw c) (c_job c) (c_gk c) (c_expo c) (c_timeout c).
+
+  (* the call made in a process whose heap is h: what the handler SEES is the content of the freshly allocated object;
+     afterwards the handler's actions are applied to that object.  A call that raises (un-encodable job or value) does
+     so before the handler is reached: no object, no request. *)
+  Definition call_in_with {T} (h : heap) (c : call T) : res (list (request T)) * heap :=
+    match request_with esc (c_api c) (c_hs c) (c_gw c) (c_job c) (c_gk c) (c_expo c) (c_timeout c) with
+    | Err e => (Err e, h)
+    | Ok r =>
+        let h1 := fst (heap_alloc h (rq_headers r)) in
+        let a := snd (heap_alloc h (rq_headers r)) in
+        let seen := mkReq (rq_url r) (rq_method r) (rq_timeout r) (heap_read h1 a) (rq_body r) in
+        (Ok [seen], heap_write h1 a (hacts_apply (c_acts c) (heap_read h1 a)))
+    end.
+
+  (* successive calls in one process: the outcome of every call, in order, and the heap at the end *)
+  Fixpoint seq_in_with {T} (h : heap) (cs : list (call T)) : list (res (list (request T))) * heap :=
+    match cs with
+    | [] => ([], h)
+    | c :: r =>
+        let o := call_in_with h c in
+        let rest := seq_in_with (snd o) r in
+        (fst o :: fst rest, snd rest)
+    end.
+End Process.
+Definition call_alone {T} := @call_alone_with escape_gk T.
+Definition call_alone_orig {T} := @call_alone_with escape_gk_orig T.
+Definition seq_in {T} := @seq_in_with escape_gk T.
+Definition seq_in_orig {T} := @seq_in_with escape_gk_orig T.
+(* a fresh process: the empty heap *)
+Definition calls_seq {T} (cs : list (call T)) : list (res (list (request T))) := fst (seq_in [] cs).
+Definition calls_seq_orig {T} (cs : list (call T)) : list (res (list (request T))) := fst (seq_in_orig [] cs).
+
 (* ====================================================================================================
    The Pushgateway side
    ==================================================================================================== *)
@@ -360,6 +440,22 @@ Definition gw_request_cmd (repaired : bool) (api_code : N) (has_scheme : bool) (
   : res (list (str * (str * (N * (list (str * str) * list N))))) :=
   do l <- (if repaired then calls_of else calls_of_orig) (gw_api_of_code api_code) has_scheme gw job gk expo timeout;
   Ok (map (fun r => (rq_url r, (rq_method r, (rq_timeout r, (rq_headers r, rq_body r))))) l).
+(* a sequence of calls in one fresh process; handler actions travel as (code, (name, value)) *)
+Definition gw_hact_of_code (c : N * (str * str)) : hact :=
+  if fst c =? 0 then HKeep else if fst c =? 1 then HAppend (snd c) else if fst c =? 2 then HClear
+  else if fst c =? 3 then HSet0 (snd c) else if fst c =? 4 then HInsert0 (snd c) else HPop.
+Definition gw_call_of_code
+    (c : N * (bool * (str * (str * (list (str * str) * (list N * (N * list (N * (str * str))))))))) : call N :=
+  match c with
+  | (a, (hs, (gw, (job, (gk, (expo, (t, acts))))))) =>
+      mkCall (gw_api_of_code a) hs gw job gk expo t (map gw_hact_of_code acts)
+  end.
+Definition gw_seq_cmd (repaired : bool)
+    (cs : list (N * (bool * (str * (str * (list (str * str) * (list N * (N * list (N * (str * str))))))))))
+  : list (res (list (str * (str * (N * (list (str * str) * list N)))))) :=
+  map (fun o => do l <- o;
+                Ok (map (fun r => (rq_url r, (rq_method r, (rq_timeout r, (rq_headers r, rq_body r))))) l))
+      ((if repaired then calls_seq else calls_seq_orig) (map gw_call_of_code cs)).
 Definition gw_decode_cmd (plus_is_space : bool) (base url : str) : res (list (str * str)) :=
   pg_decode_text plus_is_space base url.
 Definition gw_decode_bytes_cmd (plus_is_space : bool) (base url : str) : res (list (str * list N)) :=
